@@ -12,6 +12,7 @@ def run(vc, tier):
         c.run_vx_unit('c01-shapes', src, 'asan', ['--mode', 'rt', '--set', 'shapes', '--K', 4, '--D', 1], share=0.4)
         c.run_vx_unit('c01-longlen', src, 'asan', ['--mode', 'rt', '--set', 'longlen', '--D', 0, '--exec-timeout', 120000], share=0.5)
         c.run_vx_unit('c01-blocks', src, 'asan', ['--mode', 'rt', '--set', 'blocks', '--D', 0, '--exec-timeout', 60000], share=0.5)
+        c.run_vx_unit('c01-litband', src, 'asan', ['--mode', 'rt', '--set', 'litband', '--D', 0], share=0.4)
         c.run_vx_unit('c01-ab', src, 'asan', ['--mode', 'rt', '--set', 'ab', '--L', 7, '--D', 0], share=0.5)
         c.run_vx_unit('c01-absuffix', src, 'asan', ['--mode', 'rt', '--set', 'absuffix', '--L', 5, '--D', 0], share=0.9)
     else:
@@ -19,6 +20,7 @@ def run(vc, tier):
         c.run_vx_unit('c01-shapes-big', src, 'asan', ['--mode', 'rt', '--set', 'shapes', '--K', 4, '--big', 1, '--D', 1], share=0.3)
         c.run_vx_unit('c01-longlen', src, 'asan', ['--mode', 'rt', '--set', 'longlen', '--D', 1, '--exec-timeout', 120000], share=0.4)
         c.run_vx_unit('c01-blocks', src, 'asan', ['--mode', 'rt', '--set', 'blocks', '--D', 1, '--exec-timeout', 60000], share=0.4)
+        c.run_vx_unit('c01-litband', src, 'asan', ['--mode', 'rt', '--set', 'litband', '--D', 1], share=0.3)
         c.run_vx_unit('c01-ab', src, 'asan', ['--mode', 'rt', '--set', 'ab', '--L', 12, '--D', 0], share=0.5)
         c.run_vx_unit('c01-absuffix', src, 'asan', ['--mode', 'rt', '--set', 'absuffix', '--L', 9, '--D', 0], share=0.9)
     c.assumptions = ['inputs outside the shape grammar and windows other than 2^10 / 2^11 / 2^17 are not enumerated',
